@@ -116,7 +116,16 @@ func init() {
 		witness{"w-mixed-case-indexed-column", my,
 			[]Stmt{tbl("t", col("id", "int(11)"), col("userName", "varchar(64)"))},
 			[]Stmt{tbl("t", col("id", "int(11)"), col("userName", "varchar(64)")), idx("t", "idx_user_name", false, "userName")}})
+	pairWitnesses = append(pairWitnesses,
+		// C09-f: the postgres walker files DROP INDEX under the table created last, leaving a record without columns there;
+		// the other side defines an index of that name on that table
+		witness{"w-pg-columnless-index-redefined", pg,
+			[]Stmt{tbl("a", typed("INT8", "x")...), idx("a", "ia", false, "x"), tbl("b", typed("INT8", "y")...), {Kind: "dropIndex", T: "a", A: "ia"}},
+			[]Stmt{tbl("a", typed("INT8", "x")...), tbl("b", typed("INT8", "y")...), idx("b", "ia", false, "y")}})
 	scriptWitnesses = append(scriptWitnesses,
+		// C05-f: postgres ADD COLUMN with an inline key on a table that is not the one created last
+		scriptWitness{"w-pg-add-column-inline-key-earlier-table", pg, []Stmt{tbl("account", typed("INT8", "n")...), tbl("audit", col("id", "INT8", oPk)),
+			{Kind: "addColumn", T: "account", Col: col("account_id", "INT8", oPk), Pos: "none"}}},
 		scriptWitness{"w-mixed-case-indexed-column", my, []Stmt{tbl("t", col("id", "int(11)"), col("userName", "varchar(64)")), idx("t", "idx_user_name", false, "userName")}})
 }
 
